@@ -1,4 +1,7 @@
-"""C04 - model clock and day type equal the true calendar at every step."""
+"""C04 - model clock and day type equal the true calendar at every step.
+
+Round 5 (harness/v1_util.py FloatLoop): the REAL float step loop of simulate for all 45 divisors over realistic horizons
+with the calendar oracle inline at every step, and midnight probes for every (dt, day offset) - float_loop_family."""
 import datetime
 import os
 
@@ -105,6 +108,10 @@ def step_real(SimParam, M, D, dt, k, raw, oracle_bad, want_full=False, timefor=3
             oracle_bad.append(dict({'M': M, 'D': D, 'dt': dt, 'k': 0, 'observed': list(st),
                                     'expected': list(tf[:5])}, **extra))
     upd = sp.update_date
+    day_tab = _DAY
+    check = not raw
+    # (round 5: state() / pack() / true_fields() written out in the loop - the same digest and the same oracle at
+    #  every step, about 40 % cheaper; 3.7 million steps in the quick tier)
     for i in range(k):
         try:
             upd()
@@ -114,14 +121,22 @@ def step_real(SimParam, M, D, dt, k, raw, oracle_bad, want_full=False, timefor=3
                                         'observed': 'update_date raised %s: %s' % (type(e).__name__, str(e)[:80]),
                                         'expected': list(true_fields(t + dt)[:5])}, **extra))
             return classify_exc(e) + ' at=%d' % (i + 1)
-        st = state(sp)
-        h = (h * 1000003 + pack(st, 0)) % HASH_P
+        sec = sp.secDay
+        isec = int(sec)
+        if sec != isec:
+            raise core.Infra('secDay is not integral: %r' % (sec,))
+        mo = sp.month
+        dd = int(sp.day)
+        ju = sp.julian
+        hr = sp.hourDay
+        h = (h * 1000003 + (mo + 13 * (dd + 40 * (ju + 400 * (isec + 86401 * hr))))) % HASH_P
         t += dt
-        if t < YEAR and not raw:
-            tf = true_fields(t)
-            if st != tf[:5] and len(oracle_bad) < 5:
-                oracle_bad.append(dict({'M': M, 'D': D, 'dt': dt, 'k': i + 1, 'observed': list(st),
-                                        'expected': list(tf[:5])}, **extra))
+        if check and t < YEAR:
+            e_ = day_tab[t // 86400]
+            s_ = t % 86400
+            if (mo != e_[0] or dd != e_[1] or ju != e_[2] or isec != s_ or hr != s_ // 3600) and len(oracle_bad) < 5:
+                oracle_bad.append(dict({'M': M, 'D': D, 'dt': dt, 'k': i + 1, 'observed': [mo, dd, ju, isec, hr],
+                                        'expected': list(true_fields(t)[:5])}, **extra))
     st = state(sp)
     return 'ok digest=%d last=%s' % (h, fmt(st, model_daytype(st[2])))
 
@@ -431,6 +446,130 @@ def circumstances(chk, lookups_bad, oracle_bad):
     return steps
 
 
+# ----------------------------------------------------------------------------------------------
+# round 5: the REAL float step loop over all 45 time steps and realistic horizons
+
+TOP_LENGTHS = [2, 3, 6, 11, 22, 43, 86, 171, 342]      # (last day offset of each binade of 24 k) + 1
+
+
+def float_loop_family(chk):
+    """Float-only effects of the loop's own arithmetic (`int(24 / (dt / 3600.))`, `((it - 1) * ph) % 24`, ...) are exact
+    in rational arithmetic and one ulp off in doubles for a few time steps on particular day offsets: the REAL
+    `UWG.simulate` loop (harness/v1_util.py FloatLoop: real SimParam, physics stubbed, index-encoding look-up tables)
+    with the calendar oracle evaluated inline at EVERY step - clock fields, day type, traffic and building-schedule
+    look-up, month and depth index of the deep-ground and water temperature, rural row index, and the number of hourly
+    records on return. Three members:
+      A. every one of the 45 divisors, one whole day from a random Friday / Saturday / Sunday (the day type changes at the
+         midnight the run ends on) - thorough: two days;
+      B. every divisor whose days fit the step budget: the longest affordable run of 2, 3, 6, 11, 22, 43, 86, 171 or 342
+         days (the day offsets 1, 2, 5, 10, 21, 42, 85, 170, 341 end a binade of 24 k hours) started so that its LAST
+         midnight is a month change, plus runs of other lengths (first / middle day offset of a binade, random) - thorough:
+         all of these lengths within a 25 times larger budget and whole-year runs from 1 January for dt >= 48 s;
+      C. midnight probes: the real loop body entered two steps before the midnight k days after the start, with the
+         clock, day type and ground temperatures the calendar predicts for that step, and run to three steps past it -
+         every divisor x the first / middle / last day offset of every binade and a random sample of the other offsets
+         (thorough: every offset 1..364), half of the start dates chosen so that this midnight is a month change, the
+         other half so that it changes the day type."""
+    import v1_util as V
+    rng = chk.rng
+    thorough = chk.tier == 'thorough'
+    fl0 = V.FloatLoop(buildings=0)
+    fl1 = V.FloatLoop(buildings=1)
+    bad, runs, br = [], 0, {}
+
+    def note(kind, b):
+        br[kind] = br.get(kind, 0) + 1
+        if b is not None:
+            b['member'] = kind
+            bad.append(b)
+
+    # ---- A: one (two) whole day(s) across a day-type change, every divisor (quick: dt >= 6 s; the five smaller ones
+    #         cost two thirds of the steps and are left to the probes and to the thorough tier)
+    for dt in DIVISORS:
+        if dt < 6 and not thorough:
+            continue
+        M, D = V.start_for_daytype_change(rng, 364 if not thorough else 363)
+        note('A: whole day(s) ending on a day-type change', (fl1 if dt >= 100 else fl0).run(dt, M, D, 1 if not thorough else 2))
+    # ---- B: longest affordable top-of-binade length, last midnight = month change
+    budget = 6000 if not thorough else 150000
+    for dt in DIVISORS:
+        spd = 86400 // dt
+        fit = [L for L in TOP_LENGTHS if L * spd <= budget]
+        if not fit:
+            continue
+        todo = [fit[-1]] if not thorough else list(fit)
+        if thorough or rng.random() < 0.2:                  # other positions inside a binade / random lengths
+            lo, mid, hi = rng.choice(V.binade_offsets(fit[-1] - 1))
+            todo += [lo + 1, mid + 1, rng.randint(2, fit[-1])]
+        for L in sorted(set(todo)):
+            st = V.start_for_month_change(rng, L - 1)
+            if st is None:
+                st = (1, 1)
+            note('B: %d..%d days, last midnight a month change' % (1 << (L.bit_length() - 1), (1 << L.bit_length()) - 1),
+                 (fl1 if dt >= 300 else fl0).run(dt, st[0], st[1], L))
+    if thorough:
+        for dt in [d for d in DIVISORS if d >= 48]:
+            note('B: whole year from 1 January', fl0.run(dt, 1, 1, 365))
+    # ---- C: midnight probes
+    tri = sorted(set(k for t in V.binade_offsets() for k in t))
+    nprobe = 0
+    probe_bad = []
+    for dt in DIVISORS:
+        spd = 86400 // dt
+        ks = list(range(1, 365)) if thorough else sorted(set(tri + rng.sample(range(1, 365), 6)))
+        for n_, k in enumerate(ks):
+            st = V.start_for_month_change(rng, k) if (n_ % 2 == 0 or thorough) else None
+            if st is None:                                   # a start whose k-th midnight changes the day type
+                for _ in range(50):
+                    j = rng.randint(0, 364 - k)
+                    if V.DAYTAB[j + k - 1][3] != V.DAYTAB[j + k][3]:
+                        break
+                st = V.date_of(j)
+            nprobe += 1
+            b = fl1.run(dt, st[0], st[1], k + 1, first=max(1, k * spd - 2), last=min(k * spd + 3, (k + 1) * spd))
+            br['C: midnight probes'] = br.get('C: midnight probes', 0) + 1
+            if b is not None:
+                b['member'] = 'C: midnight probes'
+                probe_bad.append(b)
+    # a failing probe is confirmed by the complete (un-warped) run of the same parameters where that is affordable
+    probe_bad.sort(key=lambda b: b['nday'] * 86400 // b['dtsim'])
+    for b in probe_bad[:2]:
+        if b['nday'] * 86400 // b['dtsim'] <= 1500000:
+            full = fl1.run(b['dtsim'], b['month'], b['day'], b['nday'])
+            if full is not None:
+                full['member'] = 'C: midnight probe, confirmed by the complete run of the same parameters'
+                bad.append(full)
+                continue
+            b['probe'] += ' (NOT reproduced by the complete run of the same parameters)'
+        bad.append(b)
+    bad += probe_bad[2:]
+    runs = fl0.runs + fl1.runs
+    for b in bad[:3]:
+        case = {k: b[k] for k in ('dtsim', 'month', 'day', 'nday', 'step', 'member', 'probe') if k in b}
+        case['replay_kind'] = 'float-loop'
+        chk.violation('impl-violation', 'simulate (real float step loop): clock / day type / schedule, traffic and ground-'
+                      'temperature look-ups / row index / record count vs the true calendar',
+                      case=case, observed=b['observed'], expected=b['expected'],
+                      how='harness/v1_util.py FloatLoop().run(dtsim, month, day, nday[, first, last]): the real UWG.simulate '
+                          'with a real SimParam and the physics stubbed; the observation is made where urbflux is called')
+    chk.direct('calendar-oracle(real float step loop: 45 divisors x day offsets 1..364)', fl0.steps + fl1.steps, runs,
+               'the REAL UWG.simulate loop in double arithmetic (real SimParam(dt, 3600, month, day, days) on one generated '
+               'Singapore object, physics stubbed from outside, look-up tables index-encoding), calendar oracle inline at '
+               'EVERY step: month, day, day of year, secDay, hourDay, day type, traffic and first-building schedule look-up '
+               '(day type, hour), deep-ground / water temperature look-up (depth index, month at the beginning of the step), '
+               'rural row index; on return exactly 24 x days hourly records. (A) the divisors of 3600 from 6 s up (thorough: all 45), one whole day '
+               '(thorough: two) from a random Friday / Saturday / Sunday; (B) every divisor whose days fit %d steps: the '
+               'longest affordable of 2, 3, 6, 11, 22, 43, 86, 171, 342 days (last day offset of a binade of 24 k), started so '
+               'that the last midnight is a month change, for a quarter of them (thorough: all, every affordable length, whole '
+               'years for dt >= 48) also the first / middle offset of a binade and a random length; (C) midnight probes - the '
+               'real loop body entered two steps before the midnight k days after the start with the state the calendar '
+               'predicts and run three steps past it: all 45 divisors x %s, start dates alternating between "this midnight is a '
+               'month change" and "this midnight changes the day type" (%d probes); a failing probe is re-run as the '
+               'complete run of the same parameters and reported from there' % (
+                   budget, 'every k in 1..364' if thorough else 'first / middle / last k of every binade + 6 random k', nprobe),
+               mismatches=len(bad), branches=br)
+
+
 def run(chk):
     chk.proof(MODULE, THEOREMS)
     if chk.tier == 'thorough':
@@ -658,6 +797,9 @@ def run(chk):
     # ---- round 4: the clock under circumstances that are not its inputs ---------------------------
     circumstances(chk, lookups_bad, oracle_bad)
 
+    # ---- round 5: the real float loop, all 45 divisors x day offsets ---------------------------
+    float_loop_family(chk)
+
     # ---- the property's own oracle on the implementation ----------------------------------------
     for b in oracle_bad[:3]:
         chk.violation('impl-violation', 'SimParam clock vs true calendar (datetime 2023)',
@@ -701,6 +843,20 @@ def replay(chk, path):
         circumstances(chk, [], [])          # the circumstance families are re-explored (same seed)
         bad = [{'tie': w['theorem_or_tie'], 'observed': w['observed'], 'expected': w['expected']}
                for w in chk.violations[:1]]
+    elif c.get('replay_kind') == 'float-loop':
+        import v1_util as V
+        fl = V.FloatLoop(buildings=1)
+        first = last = None
+        if 'probe' in c:
+            import re
+            mm = re.search(r'entered at step (\d+) .* left after step (\d+)', c['probe'])
+            if mm:
+                first, last = int(mm.group(1)), int(mm.group(2))
+            else:
+                first = int(re.search(r'entered at step (\d+)', c['probe']).group(1))
+        b = fl.run(c['dtsim'], c['month'], c['day'], c['nday'], first=first, last=last)
+        if b:
+            bad.append(b)
     elif 'k' in c:
         from uwg.simparam import SimParam
         step_real(SimParam, c['M'], c['D'], c['dt'], max(c['k'], 1), False, bad, timefor=c.get('timefor', 3600),
